@@ -112,6 +112,9 @@ EDGE_INPUTS = {
         b'SSH-2.0-x  \r\n',                     # comment of one blank
         b'SSH-1.99-Cisco-1.25\n', b'SSH-2.0-dropbear_2020.81\r\n', b'SSH-2.0-OpenSSH_8.9p1 Ubuntu-3ubuntu0.1\r\n',
         b'SSH-2.0-OpenSSH_for_Windows_8.1 some comment with blanks\r\n'),
+    'cryptoparser.tls.mysql:MySQLHandshakeV10': (
+        # CLIENT_PLUGIN_AUTH with an empty plugin name: the packet ends with the NUL of the name right after the scramble
+        bytes.fromhex('0a352e372e333300070000003132333435363738000082010000080015000000000000000000006162636465666768696a6b6c0000'), ),
 }
 
 
